@@ -83,8 +83,10 @@ func checkC03(r *Result) {
 		k := FuncName(TopFunc(s.Fn)) + "|" + s.Method + "|" + mod
 		cons := fmt.Sprintf("%s # %s(%q)", FuncName(TopFunc(s.Fn)), s.Method, mod)
 		if e, ok := want[k]; ok {
-			seenKinds[k]++
-			r.ok("CENSUS-SUPPLY", cons, P.Pos(s.Pos()), "documented event: "+e.event)
+			seenKinds[k] += Multiplicity(s.Fn)
+			for m := 0; m < Multiplicity(s.Fn); m++ { // a block used n times and extracted into a helper is still n uses
+				r.ok("CENSUS-SUPPLY", cons, P.Pos(s.Pos()), "documented event: "+e.event)
+			}
 		} else {
 			r.bad("CENSUS-SUPPLY", cons, P.Pos(s.Pos()), "supply-changing call that is not one of the documented events (mint: time-based, claimed deposit; burn: tip 2%, withdrawal, dispute)")
 		}
